@@ -108,6 +108,19 @@ pub fn run(args: &[String]) {
                 let charge = if rng.chance(1, 2) { 0 } else { rng.range(-8, 8) as i32 };
                 println!("{}", one_case(id, &ents, rng.chance(1, 3), &req, charge, *rng.pick(&carriers), if with_gap { "mixed" } else { "faithful" }));
                 id += 1;
+                // the struct entry point: IsotopicDistribution::from_composition(c, n).isotopic_variants(z, carrier) computes
+                // order n (one more variant than the free function's request for n peaks)
+                if i % 5 == 0 && !with_gap {
+                    let n = 1 + rng.below(25) as i32;
+                    let c = build(&ents, false);
+                    let carrier = *rng.pick(&carriers);
+                    let out = guarded(|| IsotopicDistribution::from_composition(c.clone(), n).isotopic_variants(charge, carrier));
+                    println!("{}", json!({"id": id, "tag": "struct", "ents": c.iter().map(|(k, v)| json!([k.element.symbol, k.isotope, v])).collect::<Vec<_>>(),
+                        "rep": "vec", "req": {"i32": n + 1}, "charge": charge, "carrier": hexf(carrier), "base": hexf(base_of(&c)),
+                        "mass": hexf(guarded(|| c.mass()).unwrap_or(f64::NAN)),
+                        "out": match out { Ok(p) => peaks_json(&p), Err(_) => json!("panic") }}));
+                    id += 1;
+                }
             }
         }
         "c09" => {
